@@ -97,7 +97,17 @@ static inline void atomic_fence_seq_cst() {
 // Pause implementation
 //--------------------------------------------------------------------------------------------------
 
+#if ONETBB_VERIF
+extern "C" void vf_hook_pause(void);
+#endif
+
 static inline void machine_pause(int32_t delay) {
+#if ONETBB_VERIF
+    // verification build: a spin-wait pause is one yield point of the controlled scheduler
+    (void)delay;
+    vf_hook_pause();
+    return;
+#endif
 #if __TBB_x86_64 || __TBB_x86_32
     while (delay-- > 0) { _mm_pause(); }
 #elif __ARM_ARCH_7A__ || __aarch64__
